@@ -66,6 +66,7 @@ package icmp
 //@ pred ethhdr(e *layers.Ethernet, r *scan.Request) = fresh(e) && e.SrcMAC == r.SrcMAC && e.DstMAC == r.DstMAC && e.EthernetType == 2048
 //@ func (*PacketFiller).Fill
 //@   sig f, packet, r
+//@   locals ip: *github.com/google/gopacket/layers.IPv4 ;; icmp: *github.com/google/gopacket/layers.ICMPv4 ;; opt: github.com/google/gopacket.SerializeOptions ;; eth: *github.com/google/gopacket/layers.Ethernet
 //@   props C05 C11 C17 C01 C02 C19 C07 C13
 //@   observe rand.Intn, layers.CreateICMPv4TypeCode, gopacket.SerializeLayers
 //@   entry row vpn:   [call rand.Intn(65535) as (id0) ; call rand.Intn(65535) as (id1) ; call layers.CreateICMPv4TypeCode(f.typ, f.code) as (tc) ; call gopacket.SerializeLayers(packet, bind_opt, bind_ls) as (se)]
@@ -125,6 +126,7 @@ package icmp
 // the options run, then the options in order, nothing afterwards (so an explicitly requested empty payload stays empty)
 //@ func NewPacketFiller
 //@   sig opts
+//@   locals payload: []byte ;; f: *PacketFiller ;; o: PacketFillerOption
 //@   props C05 C01 C02 C11 C17 C19 C07 C13
 //@   observe rand.Read, PacketFillerOption
 //@   entry row init:  [call rand.Read(bind_p)] when len(p) == 48 && f.payload == p && f.ttl == 64 && f.proto == 1 && f.flags == 2 && f.typ == 8 && f.code == 0 && f.length == 0 && !f.vpnMode -> loop 0
@@ -134,6 +136,7 @@ package icmp
 // C06: parser registration (see pkg/scan/arp): first layer Ethernet, or IPv4 in VPN mode; own Ethernet/IPv4/ICMPv4 structs
 //@ func NewPacketProcessor
 //@   sig scanType, results, vpnMode
+//@   locals p: *PacketProcessor ;; layerType: github.com/google/gopacket.LayerType ;; parser: *github.com/google/gopacket.DecodingLayerParser
 //@   props C06 C03 C14 C16 C20
 //@   observe gopacket.NewDecodingLayerParser
 //@   entry row eth: [call gopacket.NewDecodingLayerParser(layers.LayerTypeEthernet, bind_ds) as (pr)]
@@ -144,6 +147,7 @@ package icmp
 //@                       && isptr(ds[2], layers.ICMPv4) && asptr(ds[2], layers.ICMPv4) == addr(ret.rcvICMP) && ret.parser == pr && pr.IgnoreUnsupported && !pr.IgnorePanic && ret.results == results && ret.scanType == scanType -> exit
 //@ func NewScanMethod
 //@   sig psrc, results, vpnMode
+//@   locals pp: *PacketProcessor
 //@   props C06 C03 C14 C16 C20
 //@   observe NewPacketProcessor
 //@   entry row build: [call NewPacketProcessor("icmp", results, vpnMode) as (pp)] when ret.PacketSource == psrc && isptr(ret.Processor, PacketProcessor) && asptr(ret.Processor, PacketProcessor) == pp
